@@ -9,6 +9,7 @@ vars == <<cloud, hist, meta, exact>>
 Bases ==
   { [name |-> "quad", P |-> {<<0, 0>>, <<4, 0>>, <<5, 3>>, <<1, 4>>, <<2, 2>>}, d |-> 2, zono |-> FALSE, lens |-> <<>>, lb |-> <<>>, ub |-> <<>>, G |-> <<>>],
     [name |-> "tri345", P |-> {<<0, 0>>, <<3, 0>>, <<0, 4>>, <<1, 1>>}, d |-> 2, zono |-> FALSE, lens |-> <<>>, lb |-> <<>>, ub |-> <<>>, G |-> <<>>],
+    [name |-> "thin", P |-> {<<0, 0>>, <<1000, 0>>, <<1000, 2>>, <<0, 2>>}, d |-> 2, zono |-> FALSE, lens |-> <<>>, lb |-> <<>>, ub |-> <<>>, G |-> <<>>],
     [name |-> "flat", P |-> {<<0, 0>>, <<3, 4>>, <<6, 8>>}, d |-> 2, zono |-> FALSE, lens |-> <<>>, lb |-> <<>>, ub |-> <<>>, G |-> <<>>],
     [name |-> "rect", P |-> ZonoCloud(<<<<1, 0>>, <<0, 1>>>>, <<0, 0>>, <<3, 2>>), d |-> 2, zono |-> TRUE, lens |-> <<1, 1>>, lb |-> <<0, 0>>, ub |-> <<3, 2>>, G |-> <<<<1, 0>>, <<0, 1>>>>],
     [name |-> "zono2", P |-> ZonoCloud(<<<<3, 0, 4>>, <<4, 5, 3>>>>, <<0, 0, 0>>, <<1, 2, 1>>), d |-> 2, zono |-> TRUE, lens |-> <<5, 5, 5>>, lb |-> <<0, 0, 0>>, ub |-> <<1, 2, 1>>, G |-> <<<<3, 0, 4>>, <<4, 5, 3>>>>],
